@@ -123,6 +123,9 @@ pub fn run_edge(case: &Value, _seed: u64) -> Outcome {
             for kk in [key(map, 1), key(map, 2)] {
                 let want = model.iter().find(|(x, _)| *x == kk).map(|(_, v)| v.clone());
                 if p.get(&kk).map(|s| s.to_string()) != want { o.v("C08", "get_first", "lossy::Paragraph::get", "mismatch", &feats, &format!("{:?}", model), format!("get({}) = {:?}", kk, p.get(&kk))); }
+                // (get exists on the paragraph trait too)
+                let tg = <Paragraph as deb822_lossless::convert::Deb822LikeParagraph>::get(&p, &kk);
+                if tg != want { o.v("C08", "get_first", "Deb822LikeParagraph::get (lossy)", "mismatch", &feats, &format!("{:?}", model), format!("trait get({}) = {:?}", kk, tg)); }
             }
             if n + 1 == ops.len() {
                 if model != model_fields(map, &case["t"]) { o.d("model_mismatch", "", "harness list model differs from TLC's".into()); }
